@@ -18,7 +18,9 @@ func selectSexp(q *influxql.SelectStatement) string {
 var c20Exprs = []string{"a", "b", "a_1", "a_2", "b_1", "a_1_1", "mean(a)", "mean(b)", "max(a)", "mean", "top(a, 2)", "top(a, b, 2)", "top(a, b, a, 3)", "bottom(a, a_1, 1)", "top(a, 2, b)",
 	"a + b", "a + a", "mean(a) + b", "(a)", "((a_1))", "(a + b)", "1", "'s'", "1 + 2", "a + 1", "count(*)", "*", "/re/", "top()", "bottom()", "f(a) + g(b)", "DISTINCT a", "time", "a::integer", "\"a\"", "\"a_1\"",
 	// names that are not plain words: format directives, blanks, quotes, non-ASCII
-	"\"usage%\"", "\"a%%\"", "\"%d\"", "\"%s_%d\"", "\"a b\"", "\"a\\\"b\"", "\"é\"", "mean(\"usage%\")", "\"usage%\" + 1", "top(\"100%\", \"%v\", 2)"}
+	"\"usage%\"", "\"a%%\"", "\"%d\"", "\"%s_%d\"", "\"a b\"", "\"a\\\"b\"", "\"é\"", "mean(\"usage%\")", "\"usage%\" + 1", "top(\"100%\", \"%v\", 2)",
+	// names that are "time" only to a reader who ignores case or parentheses: ordinary fields
+	"\"Time\"", "TIME", "tIme", "(time)", "time::integer", "\"time \""}
 var c20Aliases = []string{"", "", "", "a", "b", "a_1", "a_2", "b_1", "mean", "time", "x", "top", "a_b", "mean_1", "_1", "a_1_1", "usage%", "%d", "a%%_1"}
 
 func c20Names(q *influxql.SelectStatement) (names []string, pn interface{}) {
@@ -109,6 +111,45 @@ func c20One(o *out, text string, omitTime bool, timeAlias string, tag string) {
 			seen[n] = true
 		}
 	}
+	// the usual pipeline: RewriteTimeFields takes the references to time (exactly that name) out of the field list and
+	// records the alias; every other field stays, in order, and is named as before
+	if timeAlias == "" && !omitTime {
+		c := q.Clone()
+		if pn := safely(func() { c.RewriteTimeFields() }); pn != nil {
+			o.fail("", fmt.Sprintf("RewriteTimeFields of %q panics: %v", text, pn), rp)
+		} else {
+			isTime := func(f *influxql.Field) bool { v, ok := f.Expr.(*influxql.VarRef); return ok && v.Val == "time" }
+			var keepB, keepA, removedAliases []string
+			for _, f := range q.Fields {
+				if !isTime(f) {
+					keepB = append(keepB, f.String())
+				} else {
+					removedAliases = append(removedAliases, f.Alias)
+				}
+			}
+			for _, f := range c.Fields {
+				if !isTime(f) {
+					keepA = append(keepA, f.String())
+				}
+			}
+			o.checked()
+			if strings.Join(keepA, "\x00") != strings.Join(keepB, "\x00") {
+				o.fail("", fmt.Sprintf("RewriteTimeFields of %q leaves the fields %q; the fields that are not time were %q", text, keepA, keepB), rp)
+			} else if len(c.Fields) == len(q.Fields) && c.TimeAlias != "" {
+				o.fail("", fmt.Sprintf("RewriteTimeFields of %q removes nothing and sets the time alias %q", text, c.TimeAlias), rp)
+			} else if c.TimeAlias != "" && !contains(removedAliases, c.TimeAlias) {
+				o.fail("", fmt.Sprintf("RewriteTimeFields of %q sets the time alias %q, which no time field has", text, c.TimeAlias), rp)
+			} else if cn, pn := c20Names(c); pn == nil && len(cn) > 0 {
+				want := "time"
+				if c.TimeAlias != "" {
+					want = c.TimeAlias
+				}
+				if cn[0] != want || len(cn) != 1+len(c.Fields)+extra {
+					o.fail("", fmt.Sprintf("after RewriteTimeFields, ColumnNames of %q is %q: expected %q first and %d names", text, cn, want, 1+len(c.Fields)+extra), rp)
+				}
+			}
+		}
+	}
 	// pure function of the statement: same answer again, statement unchanged
 	again, _ := c20Names(q)
 	if strings.Join(again, "\x00") != strings.Join(names, "\x00") || selectSexp(q) != before {
@@ -187,4 +228,13 @@ func init() {
 		omit, _ := rp["omit"].(bool)
 		c20One(o, rpStr(rp, "text"), omit, rpStr(rp, "alias"), "replay")
 	}
+}
+
+func contains(l []string, s string) bool {
+	for _, x := range l {
+		if x == s {
+			return true
+		}
+	}
+	return false
 }
